@@ -15,12 +15,15 @@ var StringPool = []string{
 	")(", "@", "@@", "@(1)", "@contact", "bob@nyaruka.com", "x OR y", `" OR name != "`,
 	"AND", "has", "\n", "\t", "\u0001", " ", "+12065551212", "tel:+12065551212",
 	"image/jpeg:http://x.io/a.jpg", "Kigali", "yes", "NO", "red blue", "it's", "50%", "a,b;c",
+	// characters whose upper/lower case has a different UTF-8 length or rune count, case-folding oddities
+	"Ⱥ", "ȺȾ", "ⱥⱦ", "İstanbul", "ǅ", "ſ", "K", "ẞ", "ŉ", "ﬁ", "Ǆ", "ΐ", "Σίσυφος", "ǰ",
 }
 
 var hostileAlphabet = []string{
 	"@", "(", ")", `"`, `\`, ".", ",", "&", "[", "]", " ", " ", "a", "b", "x", "1", "2", "0", "-", "+", "*", "/", "^",
 	"=", "!", "<", ">", "=>", "contact", "fields", "results", "input", "text", "upper", "if", "true", "null",
 	"\n", "\t", "é", "日", "😀", "\u0001", "_", ":", "{", "}", "'", "%", "#", "$",
+	"5", "9", "٣", "Ⱥ", "İ", "pm", "@5", "@٣", "@_", "@é", ".5", "1e5", "\u00a0", "\u2028",
 }
 
 // LongString returns a string of n runes with a 4-byte rune at position pos (if pos < n).
